@@ -422,6 +422,8 @@ func c18Run(s *Shard) {
 			}
 		}
 	}
+	// all reference-criterion parameters left to their documented defaults, right after applications that set them
+	variants = append(variants, bias("criteriaConcealment", M{"randomSeed": 3}), bias("criteriaMixing", M{"randomSeed": 7}))
 	s.Bounds["bias_variants"] = len(variants)
 	s.Bounds["start_states_per_root"] = len(prefixes)
 	sampled := false
